@@ -2,12 +2,19 @@
 Lemmas for C11 (`S4V.Model.Year`): adjacency predicates and their behaviour under
 `reverse`, year-shift facts from the calendar closed form, and the two inductions over
 the backward walk (`walk_revOK`, `walk_true_years`).
+
+The model's loop `walk` is a function of the skeleton regenerated from the source
+(`S4V.Gen.Year`). `walkNF` is its normal form for the CURRENT skeleton (jump test, then
+start-of-file exit, then `OccursBefore => break`; `>` twice; `year - 1`); `walk_eq_nf` proves the
+two equal by unfolding the generated constants, so a regenerated skeleton that differs breaks
+`walk_eq_nf` and with it every theorem of `S4V.Props.YearSpec`.
 -/
 import S4V.Model.Year
 import S4V.Lemmas.Time
 
 namespace S4V.Lemmas.Year
 open S4V.Model.Time S4V.Model.Year S4V.Lemmas.Time
+open S4V.Gen.Year (Decision)
 
 /-! ### adjacent pairs of a list -/
 
@@ -74,41 +81,328 @@ theorem filterMap_replicate_none {β : Type} (k : Nat) :
   | zero => rfl
   | succ k ih => simp [List.replicate_succ]
 
+/-! ### normal form of the loop for the current skeleton -/
+
+/-- `dt_cur > dt_prev && dt_cur - dt_prev > J` -/
+def jumpedNF (J : Int) (prev : Option Int) (dt : Int) : Bool :=
+  match prev with
+  | some p => decide (dt > p) && decide (dt - p > J)
+  | none => false
+
+/-- `dt_after_or_before(dt, filter_dt_after) == OccursBefore` -/
+def beforeWindow (after : Option Int) (dt : Int) : Bool :=
+  match after with
+  | some a => decide (dt < a)
+  | none => false
+
+/-- the loop with the current skeleton written out: jump test first; a message at the start of the
+file or before `--dt-after` ends the walk (at the start of the file there is nothing left, so the
+exit is not visible in the output) -/
+def walkNF (J off : Int) (after : Option Int) :
+    Nat → List Msg → Int → Option Int → Later → List (Option Int)
+  | 0, ms, _, _, later => (ms.map fun _ => none) ++ later.map Prod.snd
+  | fuel + 1, ms, y, prev, later =>
+    match findParse off y ms with
+    | none =>
+      match refind off y later with
+      | none => (ms.map fun _ => none) ++ later.map Prod.snd
+      | some (pre, m, dt, post) =>
+        if jumpedNF J prev dt then walkNF J off after fuel ms (y - 1) prev (pre ++ (m, none) :: post)
+        else (ms.map fun _ => none) ++ (pre.map Prod.snd ++ (some dt :: (blank off y post).map Prod.snd))
+    | some (sk, m, dt, rest) =>
+      if jumpedNF J prev dt then
+        walkNF J off after fuel ms (y - 1) prev later
+      else if beforeWindow after dt then
+        (rest.map fun _ => none) ++ (some dt :: ((sk.map fun _ => none) ++ (blank off y later).map Prod.snd))
+      else
+        walkNF J off after fuel rest y (some dt)
+          ((m, some dt) :: ((sk.reverse.map fun s => (s, none)) ++ blank off y later))
+
+theorem jumped_eq_nf (J : Int) (prev : Option Int) (dt : Int) :
+    jumpedG skel.laterStrict skel.diffStrict J prev dt = jumpedNF J prev dt := by
+  cases prev <;> simp [jumpedG, jumpedNF, skel, S4V.Gen.Year.JUMP_LATER_STRICT, S4V.Gen.Year.JUMP_DIFF_STRICT]
+
+theorem breaksAfter_eq_nf (after : Option Int) (dt : Int) :
+    breaksAfterG skel.breaksOn after dt = beforeWindow after dt := by
+  cases after with
+  | none =>
+    simp [breaksAfterG, afterVariant, beforeWindow, skel, S4V.Gen.Year.AFTER_FILTER_BREAKS_ON,
+      S4V.Gen.Filter.dtAfterOrBefore]
+  | some a =>
+    by_cases h : dt < a <;>
+      simp [breaksAfterG, afterVariant, beforeWindow, skel, S4V.Gen.Year.AFTER_FILTER_BREAKS_ON,
+        S4V.Gen.Filter.dtAfterOrBefore, S4V.Gen.Filter.unwrapD, h]
+
+/-- the verdict of the current skeleton: jump test, then start-of-file exit, then `--dt-after` -/
+theorem verdict_nf (J : Int) (after prev : Option Int) (dt : Int) (atStart : Bool) :
+    verdict skel J after prev dt atStart =
+      if jumpedNF J prev dt then Verdict.retry
+      else if atStart then Verdict.brk
+      else if beforeWindow after dt then Verdict.brk else Verdict.next := by
+  have hd : skel.decisions = [Decision.jump, Decision.startExit, Decision.afterFilter] := by
+    simp [skel, S4V.Gen.Year.DECISIONS]
+  unfold verdict
+  rw [hd]
+  simp only [verdictL, decision, jumped_eq_nf, breaksAfter_eq_nf]
+  cases jumpedNF J prev dt <;> cases atStart <;> cases beforeWindow after dt <;> rfl
+
+theorem map_none_eq {α β : Type} (l : List α) (f : α → β) :
+    ((l.map f).map fun _ => (none : Option Int)) = l.map fun _ => none := by
+  simp
+
+theorem map_none_reverse {α : Type} (l : List α) :
+    (l.reverse.map fun _ => (none : Option Int)) = l.map fun _ => none := by
+  induction l with
+  | nil => rfl
+  | cons a t ih =>
+    simp only [List.reverse_cons, List.map_append, List.map_cons, List.map_nil, ih]
+    clear ih
+    induction t with
+    | nil => rfl
+    | cons b r ih => simp only [List.map_cons, List.cons_append, ih]
+
+theorem map_none_reverse' {α : Type} (l : List α) :
+    (l.map fun _ => (none : Option Int)).reverse = l.map fun _ => none := by
+  rw [← List.map_reverse]; exact map_none_reverse l
+
+/-- what `findParse` found parses with `y`; what it skipped does not -/
+theorem findParse_spec (off y : Int) :
+    ∀ (ms sk : List Msg) (m : Msg) (dt : Int) (rest : List Msg),
+      findParse off y ms = some (sk, m, dt, rest) →
+        dateWith off y m = some dt ∧ (∀ s ∈ sk, dateWith off y s = none) ∧ ms = sk ++ m :: rest := by
+  intro ms
+  induction ms with
+  | nil => intro sk m dt rest h; simp [findParse] at h
+  | cons a t ih =>
+    intro sk m dt rest h
+    unfold findParse at h
+    cases hd : dateWith off y a with
+    | some d =>
+      simp only [hd] at h
+      cases h
+      exact ⟨hd, by simp, rfl⟩
+    | none =>
+      simp only [hd] at h
+      cases hf : findParse off y t with
+      | none => simp [hf] at h
+      | some r =>
+        obtain ⟨sk', m', dt', rest'⟩ := r
+        simp only [hf, Option.map_some] at h
+        cases h
+        obtain ⟨h1, h2, h3⟩ := ih sk' m dt rest hf
+        refine ⟨h1, ?_, by simp [h3]⟩
+        intro s hs
+        simp at hs
+        rcases hs with rfl | hs
+        · exact hd
+        · exact h2 s hs
+
+theorem blank_of_head (off y : Int) (m : Msg) (e : Option Int) (r : Later) (dt : Int)
+    (h : dateWith off y m = some dt) : blank off y ((m, e) :: r) = (m, e) :: r := by
+  simp [blank, h]
+
+theorem blank_idem (off y : Int) : ∀ l : Later, blank off y (blank off y l) = blank off y l := by
+  intro l
+  induction l with
+  | nil => rfl
+  | cons x r ih =>
+    obtain ⟨m, e⟩ := x
+    cases hd : dateWith off y m with
+    | some d => simp [blank, hd]
+    | none => simp [blank, hd, ih]
+
+/-- lines that do not parse with `y` and have no sysline of their own are passed over unchanged -/
+theorem blank_skipped (off y : Int) (l : Later) :
+    ∀ sk : List Msg, (∀ s ∈ sk, dateWith off y s = none) →
+      blank off y ((sk.map fun s => (s, (none : Option Int))) ++ l) = (sk.map fun s => (s, none)) ++ blank off y l := by
+  intro sk
+  induction sk with
+  | nil => intro _; rfl
+  | cons a t ih =>
+    intro h
+    have ha : dateWith off y a = none := h a (by simp)
+    simp only [List.map_cons, List.cons_append, blank, ha, Option.isSome_none, Bool.false_eq_true, if_false]
+    rw [ih (fun s hs => h s (by simp [hs]))]
+
+theorem walk_eq_nf (lead : Bool) (J off : Int) (after : Option Int) :
+    ∀ (fuel : Nat) (ms : List Msg) (y : Int) (prev : Option Int) (later : Later),
+      walk lead J off after fuel ms y prev later = walkNF J off after fuel ms y prev later := by
+  intro fuel
+  induction fuel with
+  | zero => intro ms y prev later; simp [walk, walkG, walkNF]
+  | succ fuel ih =>
+    intro ms y prev later
+    unfold walk at ih ⊢
+    unfold walkG walkNF
+    have hstep : y + skel.yearStep = y - 1 := by
+      simp [skel, S4V.Gen.Year.JUMP_YEAR_STEP]; omega
+    cases hf : findParse off y ms with
+    | none =>
+      simp only []
+      cases hr : refind off y later with
+      | none => rfl
+      | some r =>
+        obtain ⟨pre, m, dt, post⟩ := r
+        simp only [verdict_nf, Bool.false_eq_true, if_false]
+        by_cases hj : jumpedNF J prev dt = true
+        · simp only [hj, if_true, hstep]
+          exact ih ms (y - 1) prev _
+        · have hj' : jumpedNF J prev dt = false := by simpa using hj
+          simp only [hj', Bool.false_eq_true, if_false]
+          cases beforeWindow after dt <;> rfl
+    | some r =>
+      obtain ⟨sk, m, dt, rest⟩ := r
+      obtain ⟨hm, hsk, _⟩ := findParse_spec off y ms sk m dt rest hf
+      simp only [verdict_nf]
+      by_cases hj : jumpedNF J prev dt = true
+      · simp only [hj, if_true, hstep]
+        exact ih ms (y - 1) prev later
+      · have hj' : jumpedNF J prev dt = false := by simpa using hj
+        simp only [hj', Bool.false_eq_true, if_false]
+        by_cases hs : (rest.isEmpty && !lead) = true
+        · have hr : rest = [] := by
+            simp at hs; exact hs.1
+          subst hr
+          simp only [hs, if_true]
+          by_cases hb : beforeWindow after dt = true
+          · simp only [hb, if_true]
+          · have hb' : beforeWindow after dt = false := by simpa using hb
+            simp only [hb', Bool.false_eq_true, if_false]
+            -- the walk goes on with nothing left: the message is found again, unchanged
+            have hsk' : ∀ s ∈ sk.reverse, dateWith off y s = none := fun s hs => hsk s (by simpa using hs)
+            cases fuel with
+            | zero =>
+              simp [walkNF, Function.comp_def]
+              exact (map_none_reverse' sk).symm
+            | succ f =>
+              unfold walkNF
+              have hjj : jumpedNF J (some dt) dt = false := by simp [jumpedNF]
+              simp only [findParse, refind, hm, hjj, Bool.false_eq_true, if_false]
+              rw [blank_skipped off y _ sk.reverse hsk', blank_idem]
+              simp [Function.comp_def]
+              exact (map_none_reverse' sk).symm
+        · have hs' : (rest.isEmpty && !lead) = false := by simpa using hs
+          simp only [hs', Bool.false_eq_true, if_false]
+          by_cases hb : beforeWindow after dt = true
+          · simp only [hb, if_true]
+          · have hb' : beforeWindow after dt = false := by simpa using hb
+            simp only [hb', Bool.false_eq_true, if_false]
+            exact ih rest y (some dt) _
+
+/-! ### the simple form: every line parses with every fill year -/
+
+/-- the loop when nothing is ever swallowed or found again (no 29 February, no malformed date):
+entries in visiting order (last message first) -/
+def walkS (J off : Int) (after : Option Int) : Nat → List Msg → Int → Option Int → List (Option Int)
+  | 0, ms, _, _ => ms.map fun _ => none
+  | fuel + 1, ms, y, prev =>
+    match findParse off y ms with
+    | none => ms.map fun _ => none
+    | some (sk, _, dt, rest) =>
+      if jumpedNF J prev dt then
+        walkS J off after fuel ms (y - 1) prev
+      else
+        List.replicate sk.length none ++
+          (some dt ::
+            (if beforeWindow after dt then rest.map fun _ => none
+             else walkS J off after fuel rest y (some dt)))
+
+/-- the line of `m` parses with every fill year (a real month/day other than 29 February) -/
+def AlwaysParse (off : Int) (m : Msg) : Prop := ∀ y, ∃ dt, dateWith off y m = some dt
+
+theorem blank_alwaysParse (off y : Int) (l : Later) (h : ∀ x ∈ l, AlwaysParse off x.1) : blank off y l = l := by
+  cases l with
+  | nil => rfl
+  | cons x r =>
+    obtain ⟨m, e⟩ := x
+    obtain ⟨dt, hd⟩ := h (m, e) (by simp) y
+    exact blank_of_head off y m e r dt hd
+
+/-- when every line parses with every year the loop is the simple form (followed by what was
+already visited) -/
+theorem walkNF_eq_walkS (J off : Int) (after : Option Int) :
+    ∀ (fuel : Nat) (ms : List Msg) (y : Int) (prev : Option Int) (later : Later),
+      (∀ m ∈ ms, AlwaysParse off m) → (∀ x ∈ later, AlwaysParse off x.1) →
+      (ms = [] → ∀ m e r, later = (m, e) :: r → prev = e ∧ e = dateWith off y m) →
+      walkNF J off after fuel ms y prev later
+        = (walkS J off after fuel ms y prev).reverse ++ later.map Prod.snd := by
+  intro fuel
+  induction fuel with
+  | zero => intro ms y prev later _ _ _; simp [walkNF, walkS, map_none_reverse']
+  | succ fuel ih =>
+    intro ms y prev later hms hl hH
+    cases ms with
+    | nil =>
+      unfold walkNF walkS
+      simp only [findParse, List.map_nil, List.reverse_nil, List.nil_append]
+      cases later with
+      | nil => simp [refind]
+      | cons x r =>
+        obtain ⟨m, e⟩ := x
+        obtain ⟨hp, he⟩ := hH rfl m e r rfl
+        obtain ⟨dt, hd⟩ := hl (m, e) (by simp) y
+        have hjj : jumpedNF J prev dt = false := by
+          rw [hp, he, hd]; simp [jumpedNF]
+        simp only [refind, hd, hjj, Bool.false_eq_true, if_false, List.map_nil, List.nil_append]
+        rw [blank_alwaysParse off y r (fun x hx => hl x (by simp [hx]))]
+        simp [he, hd]
+    | cons m rest =>
+      obtain ⟨dt, hd⟩ := hms m (by simp) y
+      have hrest : ∀ m' ∈ rest, AlwaysParse off m' := fun m' h => hms m' (by simp [h])
+      unfold walkNF walkS
+      simp only [findParse, hd]
+      rw [blank_alwaysParse off y later hl]
+      by_cases hj : jumpedNF J prev dt = true
+      · simp only [hj, if_true]
+        exact ih (m :: rest) (y - 1) prev later hms hl (by intro h; cases h)
+      · have hj' : jumpedNF J prev dt = false := by simpa using hj
+        simp only [hj', Bool.false_eq_true, if_false, List.length_nil, List.replicate, List.nil_append,
+          List.reverse_nil, List.map_nil]
+        by_cases hb : beforeWindow after dt = true
+        · simp only [hb, if_true, List.reverse_cons, map_none_reverse']
+          simp
+        · have hb' : beforeWindow after dt = false := by simpa using hb
+          simp only [hb', Bool.false_eq_true, if_false]
+          rw [ih rest y (some dt) ((m, some dt) :: later) hrest
+            (by intro x hx; simp at hx; rcases hx with rfl | hx; exact hms m (by simp); exact hl x hx)
+            (by intro _ m' e' r' h; cases h; exact ⟨rfl, hd.symm⟩)]
+          simp
+
 /-! ### the walk never produces a backward step larger than `J` -/
 
 /-- later-first list: each entry is at most `J` after the entry before it (its successor in the file) -/
 def RevOK (J : Int) : List Int → Prop := Adj (fun b a => a ≤ b + J)
 
-theorem not_jumped {J : Int} (hJ : 0 ≤ J) {p dt : Int} (h : jumped J (some p) dt = false) : dt ≤ p + J := by
-  simp [jumped] at h
+theorem not_jumped {J : Int} (hJ : 0 ≤ J) {p dt : Int} (h : jumpedNF J (some p) dt = false) : dt ≤ p + J := by
+  simp [jumpedNF] at h
   omega
 
 theorem walk_revOK (J off : Int) (after : Option Int) (hJ : 0 ≤ J) :
     ∀ (fuel : Nat) (ms : List Msg) (y : Int) (prev : Option Int),
-      RevOK J ((walk J off after fuel ms y prev).filterMap id) ∧
-        ∀ p, prev = some p → ∀ a, ((walk J off after fuel ms y prev).filterMap id).head? = some a → a ≤ p + J := by
+      RevOK J ((walkS J off after fuel ms y prev).filterMap id) ∧
+        ∀ p, prev = some p → ∀ a, ((walkS J off after fuel ms y prev).filterMap id).head? = some a → a ≤ p + J := by
   intro fuel
   induction fuel with
   | zero =>
     intro ms y prev
-    unfold walk
+    unfold walkS
     rw [filterMap_map_none]
     simp [RevOK, Adj]
   | succ fuel ih =>
     intro ms y prev
-    unfold walk
+    unfold walkS
     cases hf : findParse off y ms with
     | none =>
       simp only []
       rw [filterMap_map_none]
       simp [RevOK, Adj]
     | some r =>
-      obtain ⟨k, dt, rest⟩ := r
+      obtain ⟨sk, m0, dt, rest⟩ := r
       simp only []
-      by_cases hj : jumped J prev dt = true
+      by_cases hj : jumpedNF J prev dt = true
       · simp only [hj, if_true]
         exact ih ms (y - 1) prev
-      · have hj' : jumped J prev dt = false := by simpa using hj
+      · have hj' : jumpedNF J prev dt = false := by simpa using hj
         simp only [hj', Bool.false_eq_true, if_false]
         rw [List.filterMap_append, filterMap_replicate_none, List.nil_append]
         have hhead : ∀ p, prev = some p → dt ≤ p + J := by
@@ -126,7 +420,7 @@ theorem walk_revOK (J off : Int) (after : Option Int) (hJ : 0 ≤ J) :
           obtain ⟨ih1, ih2⟩ := ih rest y (some dt)
           simp only [List.filterMap_cons, id]
           refine ⟨?_, ?_⟩
-          · cases ht : (walk J off after fuel rest y (some dt)).filterMap id with
+          · cases ht : (walkS J off after fuel rest y (some dt)).filterMap id with
             | nil => simp [RevOK, Adj]
             | cons a r' =>
               rw [ht] at ih1 ih2
@@ -252,12 +546,12 @@ theorem walk_true_years (J off : Int) (after : Option Int) (hJ : 0 ≤ J) :
       Adj (fun b a => Step J a b) rs →
       (∀ r, rs.head? = some r →
         (prev = none ∧ y = r.y) ∨ (∃ s : TMsg, s.Ok ∧ prev = some (s.instant off) ∧ y = s.y ∧ Step J r s)) →
-      walk J off after fuel (rs.map TMsg.msg) y prev = stopSpec after (rs.map (TMsg.instant off)) := by
+      walkS J off after fuel (rs.map TMsg.msg) y prev = stopSpec after (rs.map (TMsg.instant off)) := by
   intro rs
   induction rs with
   | nil =>
     intro fuel y prev _ _ _ _
-    cases fuel <;> simp [walk, findParse, stopSpec]
+    cases fuel <;> simp [walkS, findParse, stopSpec]
   | cons r rest ih =>
     intro fuel y prev hfuel hok hadj hst
     have hrok : r.Ok := hok r (by simp)
@@ -279,21 +573,21 @@ theorem walk_true_years (J off : Int) (after : Option Int) (hJ : 0 ≤ J) :
     -- accepting `r` at year `r.y` when the state year equals `r.y`
     have accept : ∀ (f : Nat) (prev : Option Int), 2 * rest.length ≤ f →
         (∀ p, prev = some p → r.instant off ≤ p + J) →
-        walk J off after (f + 1) ((r :: rest).map TMsg.msg) r.y prev
+        walkS J off after (f + 1) ((r :: rest).map TMsg.msg) r.y prev
           = stopSpec after ((r :: rest).map (TMsg.instant off)) := by
       intro f prev hf hp
-      unfold walk
-      have hfp : findParse off r.y ((r :: rest).map TMsg.msg) = some (0, r.instant off, rest.map TMsg.msg) := by
+      unfold walkS
+      have hfp : findParse off r.y ((r :: rest).map TMsg.msg) = some ([], r.msg, r.instant off, rest.map TMsg.msg) := by
         simp [findParse, dateWith_true off r hrok]
       rw [hfp]
       simp only []
-      have hj : jumped J prev (r.instant off) = false := by
+      have hj : jumpedNF J prev (r.instant off) = false := by
         cases prev with
         | none => rfl
         | some p =>
           have := hp p rfl
-          simp [jumped]; omega
-      simp only [hj, Bool.false_eq_true, if_false, List.replicate, List.nil_append]
+          simp [jumpedNF]; omega
+      simp only [hj, Bool.false_eq_true, if_false]
       rw [ih f r.y (some (r.instant off)) hf hrest_ok hadj_rest hnext]
       simp [stopSpec]
       rfl
@@ -327,16 +621,16 @@ theorem walk_true_years (J off : Int) (after : Option Int) (hJ : 0 ≤ J) :
           · omega
         obtain ⟨k, hk, hdw⟩ := dateWith_next off r hrok
         rw [hy2] at hdw
-        have step1 : walk J off after (f + 1 + 1) ((r :: rest).map TMsg.msg) s.y (some (s.instant off))
-            = walk J off after (f + 1) ((r :: rest).map TMsg.msg) (s.y - 1) (some (s.instant off)) := by
-          conv => lhs; unfold walk
+        have step1 : walkS J off after (f + 1 + 1) ((r :: rest).map TMsg.msg) s.y (some (s.instant off))
+            = walkS J off after (f + 1) ((r :: rest).map TMsg.msg) (s.y - 1) (some (s.instant off)) := by
+          conv => lhs; unfold walkS
           have hfp : findParse off s.y ((r :: rest).map TMsg.msg)
-              = some (0, r.instant off + k * 86400, rest.map TMsg.msg) := by
+              = some ([], r.msg, r.instant off + k * 86400, rest.map TMsg.msg) := by
             simp [findParse, hdw]
           rw [hfp]
           simp only []
-          have hj : jumped J (some (s.instant off)) (r.instant off + k * 86400) = true := by
-            simp [jumped]; unfold TMsg.instant; omega
+          have hj : jumpedNF J (some (s.instant off)) (r.instant off + k * 86400) = true := by
+            simp [jumpedNF]; unfold TMsg.instant; omega
           simp only [hj, if_true]
         rw [step1]
         have : s.y - 1 = r.y := by omega
